@@ -1073,7 +1073,7 @@ def run(ctx):
     shards = [(subseed(ctx.seed, PID, w), max(1, n // 16), base) for w in range(16)]
     if arm:
         # shards of their own (the draws of the sixteen shards above stay what they were before arm was added)
-        n_arm = ctx.scale(256, 9600)
+        n_arm = ctx.scale(128, 9600)
         shards += [(subseed(ctx.seed, PID, 16 + w), max(1, n_arm // ARM_SHARDS), ("arm",)) for w in range(ARM_SHARDS)]
     ctx.pmap(_worker, shards)
     sweep = []
